@@ -27,7 +27,7 @@ Qed.
 Lemma resolve_ok : forall f base id, wres_ok f (resolve f base id).
 Proof.
   intros f base id. unfold resolve.
-  destruct (join_raw base id) as [|x r] eqn:E; [exact I|].
+  destruct (join_raw base id) as [|x r] eqn:E; [exact I|]. unfold resolve_raw.
   destruct (has_nul (x :: r) || (PATH_MAX <=? nlen (x :: r))); [exact I|].
   apply walk_ok. reflexivity.
 Qed.
@@ -222,7 +222,7 @@ Lemma empty_id_never_a_file : forall f base, is_file_at f base [] = false.
 Proof.
   intros f base. unfold is_file_at, resolve.
   destruct (join_empty_snoc base) as [s' ->].
-  destruct (s' ++ [47]) as [|x r] eqn:E; [reflexivity|]. rewrite <- E.
+  destruct (s' ++ [47]) as [|x r] eqn:E; [reflexivity|]. rewrite <- E. unfold resolve_raw.
   destruct (has_nul (s' ++ [47]) || (PATH_MAX <=? nlen (s' ++ [47]))); [reflexivity|].
   unfold split_on. rewrite split_aux_snoc, fold_left_app. cbn [fold_left].
   match goal with
@@ -244,4 +244,112 @@ Qed.
 Lemma nonempty_test_matters_for_exists :
   guard_eval GExists w_fs w_base [] = true /\ guard_eval GNonEmptyExists w_fs w_base [] = false
   /\ guard_eval GNonEmptyExists w_fs w_base [46] = true.
+Proof. vm_compute. repeat split; reflexivity. Qed.
+
+(* ---- an id that is one plain name resolves to the entry of that name IN the blobs directory: under the guard
+   `plain id && is_file` (the repair proposed for S30) an accepted id cannot leave the store ---- *)
+Lemma split_aux_nosep : forall c id cur, existsb (N.eqb c) id = false -> split_aux c cur id = [rev cur ++ id].
+Proof.
+  intros c id. induction id as [|x r IH]; intros cur H.
+  - cbn [split_aux]. rewrite app_nil_r. reflexivity.
+  - cbn [existsb] in H. apply orb_false_iff in H. destruct H as [Hx Hr].
+    cbn [split_aux]. rewrite N.eqb_sym in Hx. rewrite Hx. rewrite (IH (x :: cur) Hr).
+    cbn [rev]. rewrite <- app_assoc. reflexivity.
+Qed.
+
+Lemma split_aux_sep_nosep : forall c id s cur, existsb (N.eqb c) id = false ->
+  split_aux c cur (s ++ c :: id) = split_aux c cur s ++ [id].
+Proof.
+  intros c id s. induction s as [|x r IH]; intros cur H.
+  - cbn [app split_aux]. rewrite N.eqb_refl. rewrite (split_aux_nosep c id [] H). reflexivity.
+  - cbn [app split_aux]. destruct (x =? c); rewrite (IH _ H); reflexivity.
+Qed.
+
+Lemma starts_slash_head : forall x r, starts_slash (x :: r) = true -> x = 47.
+Proof.
+  intros x r H. unfold starts_slash in H. destruct x as [|p]; [discriminate|].
+  do 6 (try (destruct p as [p|p|]; try discriminate H)). reflexivity.
+Qed.
+
+Lemma nosep_not_absolute : forall id, existsb (N.eqb 47) id = false -> starts_slash id = false.
+Proof.
+  intros id H. destruct id as [|x r]; [reflexivity|].
+  destruct (starts_slash (x :: r)) eqn:S; [|reflexivity].
+  apply starts_slash_head in S. subst x. cbn in H. discriminate.
+Qed.
+
+Lemma join_rel_form : forall base id, starts_slash id = false ->
+  exists b', join_raw base id = b' ++ 47 :: id /\ join_raw base [46] = b' ++ 47 :: [46].
+Proof.
+  intros base id H. unfold join_raw. rewrite H. cbn [starts_slash].
+  destruct (ends_slash base) eqn:E.
+  - destruct (ends_slash_snoc base E) as [b' ->]. exists b'. rewrite <- !app_assoc. cbn [app]. split; reflexivity.
+  - exists base. cbn [app]. split; reflexivity.
+Qed.
+
+Lemma resolve_nonnil : forall f base id b' t, join_raw base id = b' ++ 47 :: t ->
+  resolve f base id = resolve_raw f (b' ++ 47 :: t).
+Proof. intros f base id b' t H. unfold resolve. rewrite H. destruct b'; reflexivity. Qed.
+
+Lemma resolve_raw_plain : forall f b' id p n,
+  plain id = true -> resolve_raw f (b' ++ 47 :: id) = WAt p n ->
+  exists q, resolve_raw f (b' ++ 47 :: [46]) = WAt q Dir /\ p = q ++ [id].
+Proof.
+  intros f b' id p n Hp H. unfold plain in Hp.
+  apply andb_true_iff in Hp. destruct Hp as [Hp Hdd]. apply andb_true_iff in Hp. destruct Hp as [Hp Hd].
+  apply andb_true_iff in Hp. destruct Hp as [Hne Hns].
+  apply negb_true_iff in Hdd. apply negb_true_iff in Hd. apply negb_true_iff in Hns.
+  destruct id as [|x r]; [discriminate|].
+  unfold resolve_raw in *.
+  destruct (has_nul (b' ++ 47 :: x :: r) || (PATH_MAX <=? nlen (b' ++ 47 :: x :: r))) eqn:G; [discriminate|].
+  apply orb_false_iff in G. destruct G as [G1 G2].
+  assert (has_nul (b' ++ 47 :: [46]) || (PATH_MAX <=? nlen (b' ++ 47 :: [46])) = false) as G'.
+  { apply orb_false_iff. split.
+    - unfold has_nul in *. rewrite existsb_app in *. apply orb_false_iff in G1. destruct G1 as [A _].
+      rewrite A. reflexivity.
+    - apply N.leb_gt. apply N.leb_gt in G2. unfold nlen in *. rewrite app_length in *. cbn [length] in *. lia. }
+  rewrite G'. unfold split_on in *.
+  rewrite (split_aux_sep_nosep 47 (x :: r) b' [] Hns) in H.
+  rewrite (split_aux_sep_nosep 47 [46] b' [] eq_refl).
+  rewrite fold_left_app in *. cbn [fold_left] in *.
+  revert H.
+  match goal with |- context [walk_step f ?st [46]] => destruct st as [q [c|]|] end; intros H; try discriminate H.
+  exists q. split; [reflexivity|].
+  assert (seg_trivial (x :: r) = false) as T by exact Hd.
+  revert H. unfold walk_step. rewrite T, Hdd. cbv beta iota.
+  match goal with |- context [if ?b then _ else _] => destruct b end; [intros H; discriminate H|].
+  match goal with |- context [match ?o with Some _ => _ | None => _ end] => destruct o end; [|intros H; discriminate H].
+  intros H. inversion H. reflexivity.
+Qed.
+
+Lemma plain_resolves_in_dir : forall f base id p n,
+  plain id = true -> resolve f base id = WAt p n ->
+  exists q, resolve f base [46] = WAt q Dir /\ p = q ++ [id].
+Proof.
+  intros f base id p n Hp H.
+  assert (starts_slash id = false) as S.
+  { apply nosep_not_absolute. unfold plain in Hp.
+    apply andb_true_iff in Hp. destruct Hp as [Hp _]. apply andb_true_iff in Hp. destruct Hp as [Hp _].
+    apply andb_true_iff in Hp. destruct Hp as [_ Hns]. apply negb_true_iff in Hns. exact Hns. }
+  destruct (join_rel_form base id S) as (b' & J1 & J2).
+  rewrite (resolve_nonnil f base id b' id J1) in H. rewrite (resolve_nonnil f base [46] b' [46] J2).
+  exact (resolve_raw_plain f b' id p n Hp H).
+Qed.
+
+(* the guard `plain && is_file`: accepted => the file is the entry named `id` of the directory `<blobs>/.` *)
+Lemma guard_plain_confined : forall f base id,
+  guard_plain f base id = true ->
+  exists q c, resolve f base [46] = WAt q Dir /\ resolve f base id = WAt (q ++ [id]) (File c)
+              /\ read_back f base id = Some c.
+Proof.
+  intros f base id H. unfold guard_plain in H. apply andb_true_iff in H. destruct H as [Hp Hf].
+  destruct (is_file_at_resolves f base id Hf) as (p & c & R & _ & B & _).
+  destruct (plain_resolves_in_dir f base id p (File c) Hp R) as (q & Q & ->).
+  exists q, c. repeat split; assumption.
+Qed.
+
+(* "../x" is not plain: the proposed guard refuses the witness of as_built_guard_escapes_store, and still accepts the blob *)
+Lemma guard_plain_examples :
+  guard_plain w_fs w_base [46; 46; 47; 120] = false /\ guard_plain w_fs w_base [107] = true
+  /\ guard_plain w_fs w_base [] = false /\ guard_plain w_fs w_base [46] = false /\ guard_plain w_fs w_base [115] = false.
 Proof. vm_compute. repeat split; reflexivity. Qed.
